@@ -323,8 +323,13 @@ def c17_oracle(full, io, b):
         if rh and rh != "~" and not rh.startswith("!") and ":" in dec(rh) and ("[" + dec(rh) + "]") not in dec(s):
             out.append(fail(v, h, "str", f"str(url) = {dec(s)!r} writes the IPv6 host {dec(rh)!r} without brackets (port {exp_ep}, scheme default {dflt})", "port-shown"))
             continue
-        m = re.match(r"^[a-z]+://(?:[^@/]*@)?(?:\[[^\]]*\]|[^:/?#]*)(?::(\d+))?", dec(s))
-        if m and (int(m.group(1)) if m.group(1) else None) != exp_shown:
+        m = re.match(r"^[a-z][a-z0-9+.\-]*://([^/?#]*)", dec(s))
+        shown_s = "?"
+        if m:
+            hp = m.group(1).rpartition("@")[2]
+            rest = hp.partition("]")[2] if hp.startswith("[") else hp[len(hp.partition(":")[0]):]
+            shown_s = int(rest[1:]) if rest.startswith(":") and rest[1:].isdigit() else (None if rest == "" else "?")
+        if m and shown_s != "?" and shown_s != exp_shown:
             out.append(fail(v, h, "str", f"str(url) = {dec(s)!r}, expected port shown = {exp_shown}", "port-shown"))
     return out
 
